@@ -2,6 +2,7 @@ import Lean.Data.Json
 import XyzModel.Batch
 import XyzModel.Core
 import XyzModel.Value
+import XyzModel.Crop
 /-! JSON-lines driver over the executable models (DESIGN.md Appendix B). One request per line, one reply per line. -/
 open Lean
 
@@ -34,7 +35,7 @@ def opBatch (j : Json) : Json :=
 inductive Sym where
   | r (loc : List Nat)              -- the value the function returned at `loc`
   | c (loc : List Nat) (j : Nat)    -- its `j`-th component
-  | m (j : Option Nat)              -- the placeholder (of component `j`)
+  | m (v : Value.Val)               -- an all-missing placeholder of this kind
 deriving Repr
 
 def leafOfStr : String → Value.Leaf
@@ -82,8 +83,12 @@ def compKind (k : Value.Val) (j : Nat) : Value.Val :=
 def symJson (kind : Value.Val) : Sym → Json
   | .r loc => Json.mkObj [("r", toJson loc)]
   | .c loc j => Json.mkObj [("c", Json.arr #[toJson loc, toJson j])]
-  | .m none => Json.mkObj [("m", jsonOfVal (Value.nanLike kind))]
-  | .m (some j) => Json.mkObj [("m", jsonOfVal (Value.nanLike (compKind kind j)))]
+  | .m v => Json.mkObj [("m", jsonOfVal v)]
+
+/-- `nan_like_result` on symbolic results of kind `kind` -/
+def symNanLike (kind : Value.Val) : Sym → Sym
+  | .m v => .m (Value.nanLike v)
+  | _ => .m (Value.nanLike kind)
 
 partial def nestJson (kind : Value.Val) : Core.Nest Sym → Json
   | .leaf s => symJson kind s
@@ -115,23 +120,113 @@ def opCore (j : Json) : Json :=
   let split := getNat j "split"
   let coords := Json.mkObj [("fn_args", toJson s.fnArgs), ("coords", toJson s.coords)]
   if split == 0 then
-    match Core.core (fun loc => Sym.r loc) (fun _ => Sym.m none) s st with
+    match Core.core (fun loc => Sym.r loc) (symNanLike kind) s st with
     | .error e => err (coreErr e)
     | .ok r => Json.mkObj [("log", toJson r.log), ("info", coords),
         ("out", if flat then Json.arr (r.flat.map (symJson kind)).toArray else nestJson kind r.nested)]
   else
     let runs := (List.range split).mapM fun jj =>
-      Core.core (fun loc => Sym.c loc jj) (fun _ => Sym.m (some jj)) s st
+      Core.core (fun loc => Sym.c loc jj) (symNanLike (compKind kind jj)) s st
     match runs with
     | .error e => err (coreErr e)
     | .ok rs => Json.mkObj [("log", toJson ((rs.head?.map (·.log)).getD [])), ("info", coords),
         ("out", Json.arr (rs.map fun r =>
           if flat then Json.arr (r.flat.map (symJson kind)).toArray else nestJson kind r.nested).toArray)]
 
+/-! ### crop histories -/
+
+def cropErr : Crop.Err → String
+  | .notReady => "notReady" | .value => "value" | .type => "type" | .missingFile => "missingFile"
+  | .badFile => "badFile" | .fnRaised => "fnRaised" | .stopIteration => "stopIteration"
+  | .notAllReaped => "notAllReaped" | .noResultForNan => "noResultForNan" | .overlap => "overlap"
+
+def permsOf (j : Json) : Crop.Perms := fun seed n =>
+  ((getObj j "perms").getObjValAs? (List Nat) s!"{seed}:{n}").toOption.getD (List.range n)
+
+def lsJson (s : Crop.St Sym) : Json :=
+  match s.dir with
+  | none => Json.null
+  | some d => Json.mkObj [("b", toJson ((d.batches.map (·.1)).mergeSort (· ≤ ·))),
+                          ("r", toJson ((d.results.map (·.1)).mergeSort (· ≤ ·))),
+                          ("info", toJson d.info.isSome)]
+
+def failsOf (op : Json) : List Nat → Bool :=
+  let fl := ((op.getObjValAs? (List (List Nat)) "fail").toOption).getD []
+  fun loc => fl.contains loc
+
+def cropOp (P : Crop.Perms) (kind : Value.Val) (s : Crop.St Sym) (op : Json) : Crop.St Sym × Json :=
+  let f : List Nat → Sym := fun loc => Sym.r loc
+  match getStr op "op" with
+  | "new" => (Crop.opNew s (optNat op "bs") (optNat op "nb") (getNat op "shuffle"), Json.null)
+  | "reload" => (Crop.opNew s none none 0, Json.null)
+  | "sow" =>
+    let sw := sweepOf (getObj op "sweep")
+    let isCases := getBool op "cases"
+    let shArg := if isCases then none else some (getNat op "shuffle")
+    match Crop.opSow P s sw shArg (optNat op "bs") (optNat op "nb") with
+    | .ok s' => (s', Json.null)
+    | .error e => ({ s with obj := Crop.sowAttrs s.obj shArg (optNat op "bs") (optNat op "nb") }, err (cropErr e))
+  | "grow" =>
+    match s.dir with
+    | none => (s, err "missingFile")
+    | some d =>
+      let (d', e) := Crop.growMany f (failsOf op) d (natList op "ids")
+      ({ s with dir := some d' }, match e with | none => Json.null | some e => err (cropErr e))
+  | "growmissing" =>
+    match Crop.missingResults s with
+    | (s1, .error e) => (s1, err (cropErr e))
+    | (s1, .ok ids) =>
+      match s1.dir with
+      | none => (s1, if ids.isEmpty then Json.null else err "missingFile")
+      | some d =>
+        let (d', e) := Crop.growMany f (failsOf op) d ids
+        ({ s1 with dir := some d' }, match e with | none => Json.null | some e => err (cropErr e))
+  | "delres" =>
+    (match s.dir with
+     | some d => { s with dir := some { d with results := Crop.erase d.results (getNat op "id") } }
+     | none => s, Json.null)
+  | "corrupt" =>
+    (match s.dir with
+     | some d => if (Crop.lookup d.results (getNat op "id")).isSome
+                 then { s with dir := some { d with results := Crop.insert d.results (getNat op "id") .bad } } else s
+     | none => s, Json.null)
+  | "checkbad" =>
+    match s.dir with
+    | none => (s, Json.mkObj [("bad", toJson ([] : List Nat))])
+    | some d =>
+      match Crop.checkBad d with
+      | .ok (d', bad) => ({ s with dir := some d' }, Json.mkObj [("bad", toJson (bad.mergeSort (· ≤ ·)))])
+      | .error e => (s, err (cropErr e))
+  | "query" =>
+    let (s1, p) := Crop.calcProgress s
+    let (s2, ready) := Crop.isReady s1
+    match Crop.missingResults s2 with
+    | (s3, .error e) => (s3, Json.mkObj [("sown", toJson p.sown), ("results", toJson p.results), ("ready", toJson ready), ("missing", err (cropErr e))])
+    | (s3, .ok ms) => (s3, Json.mkObj [("sown", toJson p.sown), ("results", toJson p.results), ("ready", toJson ready), ("missing", toJson ms)])
+  | "reap" =>
+    let o : Crop.ReapOpts := { allowIncomplete := getBool op "allow_incomplete", wait := getBool op "wait",
+                               cleanUp := (op.getObjValAs? Bool "clean_up").toOption }
+    match Crop.reapRaw P (symNanLike kind) s o with
+    | .ok (s', out) => (s', Json.mkObj [("ok", nestJson kind out)])
+    | .error e =>
+      -- a refused / failed reap may still have synced the object from disk
+      let s' := if o.allowIncomplete || o.wait then s else (Crop.isReady s).1
+      (s', err (cropErr e))
+  | o => (s, err s!"bad-op {o}")
+
+def opCrop (j : Json) : Json :=
+  let P := permsOf j
+  let kind := valOfJson (getObj j "kind")
+  let (_, obs) := (getArr j "ops").foldl (fun (acc : Crop.St Sym × Array Json) op =>
+    let (s', o) := cropOp P kind acc.1 op
+    (s', acc.2.push (Json.mkObj [("o", o), ("ls", lsJson s')]))) (({} : Crop.St Sym), #[])
+  Json.mkObj [("obs", Json.arr obs)]
+
 def handle (j : Json) : Json :=
   match getStr j "op" with
   | "batch" => opBatch j
   | "core" => opCore j
+  | "crop" => opCrop j
   | "ping" => Json.mkObj [("pong", true)]
   | o => err s!"bad-op {o}"
 
